@@ -4,12 +4,22 @@
   Property theorems only; the lemmas are in CelloProofs/Lemmas/Table*.lean, RHAbsIns.lean (insert abstraction),
   RHIns.lean / RH.lean / RHErase.lean (shared robin-hood core).
   Model: Cello/Table.lean (`step`, `run`: src/Table.c as it is now; `specStep`, `specRun`: association lists).
-  Source-derived facts: CelloGen/Table.lean (`primes`, `loadNum/loadDen`, `tieGe`, `setGrowsEmpty`, `probe`).
+  Source-derived facts: CelloGen/Table.lean (`primes`, `loadNum/loadDen`, `tieGe`, `setGrowsEmpty`, `assignGuardsSelf`,
+  `getShortcutChecksKey`, `probe`);
+  CelloGen/Cmp.lean (`eq`, `Int_Cmp`) and CelloGen/Hash.lean (`hash_data`) for the Int / String key classes.
+
+  Key objects.  In the model an object is a value; `Table_Get` alone looks at the *address* of its key argument
+  (Table.c:523-525).  `Op.get t k` is a `get` whose key object lies outside the table's slot array (`KeyArg.obj k`); a key
+  argument that points into the table's own storage is `KeyArg.inSlot`, covered by `C02_get_mem_agree` (explicit hypothesis
+  `a.outside`), `C02_get_iteration_pointer` (the intended use) and `C02_get_value_pointer_refuted` (known finding
+  KF-C02-get-alias).  `get` changes no state, so these single-table statements apply at every point of every history
+  (`C02_invariant_every_step` supplies `Rep`).
 -/
 import Cello.Table
 import CelloGen.Table
 import CelloProofs.Lemmas.TableIdeal
 import CelloProofs.Lemmas.TableRefine
+import CelloProofs.Lemmas.TableKeys
 
 namespace Cello.Table
 open RH
@@ -18,10 +28,16 @@ open RH
 def idealNow : Nat → Nat := idealSize CelloGen.Table.primes CelloGen.Table.loadNum CelloGen.Table.loadDen
 
 /-- the model parameters of the source as it is now -/
-def cfgNow : Cfg := { ge := CelloGen.Table.tieGe, growEmpty := CelloGen.Table.setGrowsEmpty, ideal := idealNow }
+def cfgNow : Cfg :=
+  { ge := CelloGen.Table.tieGe, growEmpty := CelloGen.Table.setGrowsEmpty, ideal := idealNow,
+    selfGuard := CelloGen.Table.assignGuardsSelf, getChecksKey := CelloGen.Table.getShortcutChecksKey }
 
 /-- `N` table variables, each `new(Table, K, V)` -/
 def fresh (cfg : Cfg) (κ ν : Type) (N : Nat) : List (Tab κ ν) := List.replicate N (new cfg)
+
+/-- the slot array as `(index, stored home, key, value)` -/
+def slotList' (t : Tab Nat Nat) : List (Nat × Nat × Nat × Nat) :=
+  (t.slots.toList.zipIdx.filterMap (fun p => p.1.map (fun e => (p.2, e.home, e.key, e.val))))
 
 variable {κ ν : Type} [DecidableEq κ]
 
@@ -31,65 +47,62 @@ theorem C02_idealSize_gt (n : Nat) : n < idealNow n :=
   idealSize_gt _ _ _ (by decide) (by decide) (by decide) n
 
 /-- **The source as it is now has the parameters the refinement needs**: strict displacement test `j > p` (F02 fixed),
-    `Table_Set` grows an `nslots = 0` table (F03 fixed), `Table_Ideal_Size n > n`.  Stops type-checking when src/Table.c
-    changes any of them. -/
-theorem C02_current_source_good : GoodCfg cfgNow := ⟨rfl, rfl, C02_idealSize_gt⟩
+    `Table_Set` grows an `nslots = 0` table (F03 fixed), `Table_Ideal_Size n > n`, `Table_Assign` returns at once when
+    `self is obj` (self-assignment fixed).  Stops type-checking when src/Table.c changes any of them. -/
+theorem C02_current_source_good : GoodCfg cfgNow := ⟨rfl, rfl, C02_idealSize_gt, rfl⟩
 
 /-- **C02 (core).** For every key type with decidable equality, every value type, *every hash function*, every number of
     table variables and every history of `new / set / rem / get / mem / len / iter / riter / resize / assign / copy`
-    (without `assign(t, t)`), under the three source-derived conditions `GoodCfg`:
+    (`assign(t, t)` included), `new` with initial pairs (`newWith`: repeated keys, odd argument count) and `assign` from a
+    map that is not a Table (`assignMap`), under the four source-derived conditions `GoodCfg`:
     the model of src/Table.c never divides by zero and never loops for ever, its observations are those of the
     association-list specification (iteration: a permutation of the bindings), and afterwards every table satisfies the
     representation invariant `Rep` (stored home = hash % nslots, distinct keys, probe-distance order, `nitems` = occupied
     slots = number of bindings, an empty slot, same bindings as the specification).  Because the statement holds for every
     history it holds after every prefix: the invariant holds at every step. -/
-theorem C02_refines_map (cfg : Cfg) (g : GoodCfg cfg) (hash : κ → Nat) (N : Nat) (ops : List (Op κ ν))
-    (hops : ∀ op ∈ ops, op.noSelfAssign) :
+theorem C02_refines_map (cfg : Cfg) (g : GoodCfg cfg) (hash : κ → Nat) (N : Nat) (ops : List (Op κ ν)) :
     ∃ ts' os, run cfg hash (fresh cfg κ ν N) ops = .ok (ts', os) ∧
       List.Forall₂ ObsRel os (specRun (List.replicate N []) ops).2 ∧
       StRel hash ts' (specRun (List.replicate N []) ops).1 := by
   obtain ⟨ts', os, h1, h2, h3⟩ := run_refines cfg g hash ops (fresh cfg κ ν N) (List.replicate N [])
-    (strel_replicate cfg g hash N) hops
+    (strel_replicate cfg g hash N)
   exact ⟨ts', os, h1, h3, h2⟩
 
 /-- **C02 for the code as it is in /repo now.** -/
-theorem C02_current_source (hash : κ → Nat) (N : Nat) (ops : List (Op κ ν)) (hops : ∀ op ∈ ops, op.noSelfAssign) :
+theorem C02_current_source (hash : κ → Nat) (N : Nat) (ops : List (Op κ ν)) :
     ∃ ts' os, run cfgNow hash (fresh cfgNow κ ν N) ops = .ok (ts', os) ∧
       List.Forall₂ ObsRel os (specRun (List.replicate N []) ops).2 ∧
       StRel hash ts' (specRun (List.replicate N []) ops).1 :=
-  C02_refines_map cfgNow C02_current_source_good hash N ops hops
+  C02_refines_map cfgNow C02_current_source_good hash N ops
 
 /-- **The invariant holds at every step** of every history (every prefix of the op list). -/
-theorem C02_invariant_every_step (hash : κ → Nat) (N : Nat) (ops : List (Op κ ν)) (hops : ∀ op ∈ ops, op.noSelfAssign)
-    (i : Nat) : ∃ ts' os, run cfgNow hash (fresh cfgNow κ ν N) (ops.take i) = .ok (ts', os) ∧
+theorem C02_invariant_every_step (hash : κ → Nat) (N : Nat) (ops : List (Op κ ν)) (i : Nat) : ∃ ts' os, run cfgNow hash (fresh cfgNow κ ν N) (ops.take i) = .ok (ts', os) ∧
       StRel hash ts' (specRun (List.replicate N []) (ops.take i)).1 := by
-  obtain ⟨ts', os, h1, _, h3⟩ := C02_current_source hash N (ops.take i) (fun op h => hops op (List.mem_of_mem_take h))
+  obtain ⟨ts', os, h1, _, h3⟩ := C02_current_source hash N (ops.take i)
   exact ⟨ts', os, h1, h3⟩
 
 /-- **The outcome never depends on the hash function** (collisions, wrap-around, rehashing): two runs of the same history
     under two arbitrary hash functions both succeed and give observations related to the same specification observations
     (equal, except that iteration may enumerate the same bindings in another order). -/
-theorem C02_hash_independent (h1 h2 : κ → Nat) (N : Nat) (ops : List (Op κ ν)) (hops : ∀ op ∈ ops, op.noSelfAssign) :
+theorem C02_hash_independent (h1 h2 : κ → Nat) (N : Nat) (ops : List (Op κ ν)) :
     ∃ ts1 os1 ts2 os2, run cfgNow h1 (fresh cfgNow κ ν N) ops = .ok (ts1, os1) ∧
       run cfgNow h2 (fresh cfgNow κ ν N) ops = .ok (ts2, os2) ∧
       List.Forall₂ ObsRel os1 (specRun (List.replicate N []) ops).2 ∧
       List.Forall₂ ObsRel os2 (specRun (List.replicate N []) ops).2 := by
-  obtain ⟨ts1, os1, a1, a2, _⟩ := C02_current_source h1 N ops hops
-  obtain ⟨ts2, os2, b1, b2, _⟩ := C02_current_source h2 N ops hops
+  obtain ⟨ts1, os1, a1, a2, _⟩ := C02_current_source h1 N ops
+  obtain ⟨ts2, os2, b1, b2, _⟩ := C02_current_source h2 N ops
   exact ⟨ts1, os1, ts2, os2, a1, b1, a2, b2⟩
 
-/-- **"The bindings of the last set of each key not since removed"**: after a history of `set/rem/get/mem/len/iter` on fresh
-    tables, under any hash function, `get t k` answers the value of the last `set t k _` that no `rem t k` followed, and
-    raises `KeyError` if there is none — whatever was inserted, displaced, shifted or rehashed in between. -/
+/-- **"The bindings of the last set of each key not since removed"**: after a history of
+    `new/set/rem/get/mem/len/iter/riter/resize` on fresh tables (every `resize`: growing, refused, and `resize(t, 0)`, which
+    like `new` and `rem` unbinds), under any hash function, `get t k` answers the value of the last `set t k _` that no
+    `rem t k`, `resize(t, 0)` or `new t` followed, and raises `KeyError` if there is none — whatever was inserted, displaced,
+    shifted or rehashed in between. -/
 theorem C02_last_set_wins (hash : κ → Nat) (N : Nat) (ops : List (Op κ ν)) (hplain : ∀ op ∈ ops, op.isPlain)
     (t : Nat) (ht : t < N) (k : κ) :
     ∃ ts' os, ∃ ht' : t < ts'.length, run cfgNow hash (fresh cfgNow κ ν N) ops = .ok (ts', os) ∧
       get hash ts'[t] k = .ok (match lastWrite t k ops none with | none => .raised .KeyError | some v => .val v) := by
-  have hns : ∀ op ∈ ops, op.noSelfAssign := by
-    intro op h
-    have := hplain op h
-    cases op <;> simp [Op.isPlain, Op.noSelfAssign] at this ⊢
-  obtain ⟨ts', os, h1, _, R⟩ := C02_current_source hash N ops hns
+  obtain ⟨ts', os, h1, _, R⟩ := C02_current_source hash N ops
   have hw := spec_last_write t k ops (List.replicate N ([] : Spec κ ν)) hplain
   have hlen : (specRun (List.replicate N ([] : Spec κ ν)) ops).1.length = ts'.length := R.1.symm
   have hr0 : (List.replicate N ([] : Spec κ ν))[t]? = some [] := by simp [ht]
@@ -107,11 +120,18 @@ theorem C02_last_set_wins (hash : κ → Nat) (N : Nat) (ops : List (Op κ ν)) 
     simp only [Option.map_some, Option.some.injEq] at hw
     rw [hw]; rfl
 
-/-! ### corollaries for a table in the invariant (every table of every reachable state, by `C02_refines_map`) -/
+/-! ### corollaries -/
 
-/-- `len` is the number of bindings -/
-theorem C02_len_eq_size (hash : κ → Nat) (t : Tab κ ν) (m : Spec κ ν) (r : Rep hash t m) : t.nitems = m.length :=
-  len_rep hash t m r
+/-- **`len` is the number of bindings**, after every history, for every table variable -/
+theorem C02_len_eq_size (hash : κ → Nat) (N : Nat) (ops : List (Op κ ν)) :
+    ∃ ts' os, run cfgNow hash (fresh cfgNow κ ν N) ops = .ok (ts', os) ∧
+      ts'.length = (specRun (List.replicate N ([] : Spec κ ν)) ops).1.length ∧
+      ∀ t (h1 : t < ts'.length) (h2 : t < (specRun (List.replicate N ([] : Spec κ ν)) ops).1.length),
+        ts'[t].nitems = ((specRun (List.replicate N ([] : Spec κ ν)) ops).1[t]).length := by
+  obtain ⟨ts', os, h1, _, R⟩ := C02_current_source hash N ops
+  exact ⟨ts', os, h1, R.1, fun t a b => len_rep hash _ _ (R.2 t a b)⟩
+
+/-! … for a table in the invariant `Rep` (every table of every reachable state, by `C02_refines_map`) -/
 
 /-- iteration yields every key exactly once, with its value: no key twice, the same bindings as the map; backward
     iteration is forward iteration reversed -/
@@ -121,11 +141,55 @@ theorem C02_iteration_each_key_once (hash : κ → Nat) (t : Tab κ ν) (m : Spe
   refine ⟨foreach_keys_nodup hash t r.toWF, foreach_perm hash t m r.toRep0, ?_, foreachRev_eq_reverse hash t r.toWF⟩
   rw [(foreach_perm hash t m r.toRep0).length_eq, r.len]
 
-/-- `get` and `mem` agree with the map -/
-theorem C02_get_mem_agree (hash : κ → Nat) (t : Tab κ ν) (m : Spec κ ν) (r : Rep hash t m) (k : κ) :
-    get hash t k = .ok (match Spec.get m k with | none => .raised .KeyError | some v => .val v) ∧
-    mem hash t k = .ok (.bool (Spec.get m k).isSome) :=
-  ⟨get_rep hash t m r k, mem_rep hash t m r k⟩
+/-- **`get` and `mem` agree with the map — for a key object that does not lie in the table's own slot array** (`a.outside`,
+    decidable; the hypothesis the address test of Table.c:523-525 forces).  `getArg` is the whole of `Table_Get`.
+    Partial: the full statement `C02_get_any_key_object_statement` (any key object) is refuted below for the source as it is. -/
+theorem C02_get_mem_agree_partial (cfg : Cfg) (hash : κ → Nat) (asKey : ν → Option κ) (t : Tab κ ν) (m : Spec κ ν)
+    (r : Rep hash t m) (a : KeyArg κ) (hout : a.outside = true) :
+    ∃ k, a = .obj k ∧
+      getArg cfg hash asKey t a = .ok (match Spec.get m k with | none => .raised .KeyError | some v => .val v) ∧
+      mem hash t k = .ok (.bool (Spec.get m k).isSome) := by
+  cases a with
+  | obj k => exact ⟨k, rfl, get_rep hash t m r k, mem_rep hash t m r k⟩
+  | inSlot i p => cases hout
+
+/-- the hypothesis is met by every key the harness builds on the stack (`$I(9)`), here on a reachable table -/
+example : (KeyArg.obj 9 : KeyArg Nat).outside = true ∧
+    (run cfgNow (fun k => k) (fresh cfgNow Nat Nat 1) [.set 0 4 1, .set 0 9 2]).toOption.map
+        (fun r => r.1.map (fun t => (getArg cfgNow (fun k => k) some t (.obj 9)).toOption.map (fun o => match o with | .val v => v | _ => 0)))
+      = some [some 2] := by decide
+
+/-- **the intended use of the address test**: `get(t, p)` for the key object `p` that the table stores for `k` — what
+    `foreach (p in t)` hands out — answers what the map binds to `k` (and `KeyError` when `k` is not bound and there is no
+    such object); with the test as it is and with the repaired test -/
+theorem C02_get_iteration_pointer (cfg : Cfg) (hash : κ → Nat) (asKey : ν → Option κ) (t : Tab κ ν) (m : Spec κ ν)
+    (r : Rep hash t m) (k : κ) :
+    getViaKey cfg hash asKey t k = .ok (match Spec.get m k with | none => .raised .KeyError | some v => .val v) :=
+  getViaKey_rep cfg hash asKey t m r k
+
+/-- what the code as it is answers to `get(t, get(t, k))`: the value bound to `k` once more — it never looks at what the
+    *value* object says when read as a key -/
+theorem C02_get_value_pointer_answer (cfg : Cfg) (hc : cfg.getChecksKey = false) (hash : κ → Nat) (asKey : ν → Option κ)
+    (t : Tab κ ν) (m : Spec κ ν) (r : Rep hash t m) (k : κ) :
+    getViaVal cfg hash asKey t k = .ok (match Spec.get m k with | none => .raised .KeyError | some v => .val v) :=
+  getViaVal_rep cfg hc hash asKey t m r k
+
+/-- the full statement for `get`, for a configuration of the model: whatever object is passed as the key — also the value
+    object of one of the table's own records, read as a key by `asKey` (`cast(x, t->ktype)`; Int → Int tables: the identity)
+    — the answer is what the map binds to the value of that object -/
+def C02_get_any_key_object_statement (cfg : Cfg) : Prop :=
+  ∀ (κ ν : Type) [DecidableEq κ] (hash : κ → Nat) (asKey : ν → Option κ) (t : Tab κ ν) (m : Spec κ ν), Rep hash t m → ∀ k,
+    getViaVal cfg hash asKey t k = .ok (Spec.getOfVal asKey m k)
+
+/-- the source as it is, whatever the translator finds for the other parameters -/
+def cfgAnyAddress : Cfg := { cfgNow with getChecksKey := false }
+/-- the source with the repair proposed for KF-C02-get-alias (short cut only for the key object of an occupied record) -/
+def cfgKeyChecked : Cfg := { cfgNow with getChecksKey := true }
+
+/-- **the proposed repair is right on the model**: with the checked address test the full statement holds -/
+theorem C02_get_any_key_object_repaired : C02_get_any_key_object_statement cfgKeyChecked := by
+  intro κ ν _ hash asKey t m r k
+  exact getViaVal_rep_checked cfgKeyChecked rfl hash asKey t m r k
 
 /-- `get` or `rem` of an absent key raises `KeyError` and leaves the table exactly as it was -/
 theorem C02_absent_key_KeyError_unchanged (cfg : Cfg) (hash : κ → Nat) (t : Tab κ ν) (m : Spec κ ν)
@@ -152,6 +216,62 @@ theorem C02_emptied_keeps_working (cfg : Cfg) (g : GoodCfg cfg) (hash : κ → N
 /-- `resize(t, 0)` of any table in the invariant gives such an emptied table (with `nslots = 0`) -/
 theorem C02_resize_zero_empties (cfg : Cfg) (hash : κ → Nat) (t : Tab κ ν) : ∃ t', resize cfg hash t 0 = .ok (t', .done) ∧ t'.n = 0 ∧ Rep hash t' [] :=
   ⟨clear t, rfl, rfl, rep_empty_zero hash⟩
+
+/-- **`new(Table, K, V, k1, v1, …)` and `assign` from a map that is not a Table** (`fill`: sized once for the number of
+    pairs, then one `Table_Set_Move` per pair with no growth in between): never fails, ends in the invariant, and binds
+    every key to the value of the *last* pair that names it; for a source with distinct keys the bindings are exactly the
+    source's pairs. -/
+theorem C02_new_with_pairs (hash : κ → Nat) (kvs : List (κ × ν)) :
+    ∃ t', fill cfgNow hash kvs = .ok t' ∧ Rep hash t' (Spec.ofPairs kvs) ∧
+      (∀ k, get hash t' k = .ok (match (kvs.reverse.find? (fun p => decide (p.1 = k))).map (·.2) with
+                                  | none => .raised .KeyError | some v => .val v)) ∧
+      ((kvs.map Prod.fst).Nodup → (foreach t').Perm kvs) := by
+  obtain ⟨t', e, r⟩ := fill_rep cfgNow C02_current_source_good hash kvs
+  refine ⟨t', e, r, ?_, ?_⟩
+  · intro k; rw [get_rep hash t' _ r k, ofPairs_get]; rfl
+  · intro hnd
+    have := foreach_perm hash t' _ r.toRep0
+    rw [ofPairs_of_nodup kvs hnd] at this
+    exact this.trans (List.reverse_perm kvs)
+
+/-- constructor arguments that repeat a key and collide (0, 5, 10 modulo 5) in an array sized for three pairs -/
+example : (((fill cfgNow (fun k => k) [(0, 1), (5, 2), (0, 3), (10, 4)]).toOption.map (fun t => (t.n, t.nitems, slotList' t)))
+    == some (5, 3, [(0, 0, 0, 3), (1, 0, 5, 2), (2, 0, 10, 4)])) = true := by decide
+
+/-! ### the key classes the property names -/
+
+/-- **Int keys.**  `eq(a, b)` of src/Cmp.c over `Int_Cmp` of src/Num.c (both translated from the source on every run) is
+    equality of the 64-bit value, equal keys hash equally, and the model run *with that `eq` as its key test* and with
+    `Int_Hash` as its hash refines the map, for every history. -/
+theorem C02_int_keys (N : Nat) (ops : List (Op (BitVec 64) ν)) :
+    (∀ a b : BitVec 64, CelloGen.Cmp.eq Cello.Cmp.intCmp a b = true ↔ a = b) ∧
+    (∀ a b : BitVec 64, CelloGen.Cmp.eq Cello.Cmp.intCmp a b = true → intKeyHash a = intKeyHash b) ∧
+    ∃ ts' os, @run _ ν intKeyEq cfgNow intKeyHash (fresh cfgNow _ ν N) ops = .ok (ts', os) ∧
+      List.Forall₂ (@ObsRel _ ν) os (@specRun _ ν intKeyEq (List.replicate N []) ops).2 ∧
+      StRel intKeyHash ts' (@specRun _ ν intKeyEq (List.replicate N []) ops).1 :=
+  ⟨int_eq_iff, int_eq_hash, @C02_current_source _ ν intKeyEq intKeyHash N ops⟩
+
+/-- **String keys.**  `eq` over `strcmp` (`String_Cmp`) is equality of the byte strings, equal keys hash equally
+    (`String_Hash` = `hash_data` of the bytes, constants from src/Hash.c), and the model run with that key test and that hash
+    refines the map, for every history. -/
+theorem C02_string_keys (N : Nat) (ops : List (Op (List UInt8) ν)) :
+    (∀ a b : List UInt8, CelloGen.Cmp.eq Cello.Cmp.bytesCmp a b = true ↔ a = b) ∧
+    (∀ a b : List UInt8, CelloGen.Cmp.eq Cello.Cmp.bytesCmp a b = true → stringKeyHash a = stringKeyHash b) ∧
+    ∃ ts' os, @run _ ν stringKeyEq cfgNow stringKeyHash (fresh cfgNow _ ν N) ops = .ok (ts', os) ∧
+      List.Forall₂ (@ObsRel _ ν) os (@specRun _ ν stringKeyEq (List.replicate N []) ops).2 ∧
+      StRel stringKeyHash ts' (@specRun _ ν stringKeyEq (List.replicate N []) ops).1 :=
+  ⟨string_eq_iff, string_eq_hash, @C02_current_source _ ν stringKeyEq stringKeyHash N ops⟩
+
+/-- the instances run: Int keys 2^32 apart that collide modulo 5 stay two keys (a comparison narrower than 64 bits would merge
+    them), `get` finds the second -/
+example : ((@run _ Nat intKeyEq cfgNow intKeyHash (fresh cfgNow _ Nat 1)
+      [.set 0 0 1, .set 0 (BitVec.ofNat 64 (5 * 2^32)) 2, .len 0, .get 0 (BitVec.ofNat 64 (5 * 2^32))]).toOption.map
+        (fun r => r.2.map (fun o => match o with | .nat n => n | .val v => v | _ => 0))) = some [0, 0, 2, 2] := by decide
+
+/-- Float keys are not covered: `eq` on doubles is not an equivalence (NaN equals everything) -/
+theorem C02_float_keys_excluded :
+    Cello.Hash.floatCmp 0x3ff0000000000000 0x7ff8000000000000 = 0 ∧ Cello.Hash.floatCmp 0x7ff8000000000000 0x4000000000000000 = 0 ∧
+    Cello.Hash.floatCmp 0x3ff0000000000000 0x4000000000000000 ≠ 0 := float_eq_not_an_equivalence
 
 /-- **F02's fix as a theorem** (`Table.update_hits_existing`): under the invariant, `Table_Set_Move` with the strict test
     `j > p`, given a key already stored at slot `p`, reaches `p` before any displacement and before any empty slot and
@@ -200,21 +320,54 @@ theorem C02_F03_refuted :
     (match run bad hid (fresh bad Nat Nat 1) [.resize 0 0, .set 0 1 1] with | .error .ub => true | _ => false) = true := by
   decide
 
-/-- **Known finding KF-C02-self-assign (not repaired).** `assign(t, t)` empties the table: `Table_Assign` clears `self`
-    before it reads `obj`.  The model (which mirrors the code) departs from the specification on this witness; the
-    refinement theorem therefore excludes self-assignment. -/
+/-- **Self-assignment (repaired in /repo, a3140e4).** Without the `self is obj` guard `assign(t, t)` empties the table:
+    `Table_Assign` clears `self` before it reads `obj`.  The old variant of the model departs from the specification on this
+    witness; with the guard that is in the source now the same history keeps its binding. -/
 theorem C02_self_assign_refuted :
+    let old : Cfg := { cfgNow with selfGuard := false }
     let ops : List (Op Nat Nat) := [.set 0 1 1, .assign 0 0, .len 0]
-    (run cfgNow hid (fresh cfgNow Nat Nat 1) ops).toOption.map (fun r => r.2.getLast?.map (fun o => match o with | .nat n => n | _ => 7))
+    (run old hid (fresh old Nat Nat 1) ops).toOption.map (fun r => r.2.getLast?.map (fun o => match o with | .nat n => n | _ => 7))
         = some (some 0) ∧
-    (specRun (List.replicate 1 []) ops).2.getLast?.map (fun o => match o with | .nat n => n | _ => 7) = some 1 := by
+    (specRun (List.replicate 1 []) ops).2.getLast?.map (fun o => match o with | .nat n => n | _ => 7) = some 1 ∧
+    (run cfgNow hid (fresh cfgNow Nat Nat 1) ops).toOption.map (fun r => r.2.getLast?.map (fun o => match o with | .nat n => n | _ => 7))
+        = some (some 1) := by
   decide
+
+/-- **Known finding KF-C02-get-alias (not repaired).** `Table_Get` answers any address inside its own slot array with the
+    value of that record (Table.c:523-525).  On the reachable table `{1 → 2, 2 → 3}` (Int → Int), `v = get(t, 1)` is an Int
+    object with value 2 that lives in the table; `get(t, v)` answers 2, the map binds 2 to 3.  Hence the full statement fails
+    and `C02_get_mem_agree_partial` carries the hypothesis `a.outside`. -/
+theorem C02_get_value_pointer_refuted : ¬ C02_get_any_key_object_statement cfgAnyAddress := by
+  intro h
+  obtain ⟨ts', os, h1, _, R⟩ := C02_current_source hid 1 ([.set 0 1 2, .set 0 2 3] : List (Op Nat Nat))
+  have hrun : run cfgNow hid (fresh cfgNow Nat Nat 1) ([.set 0 1 2, .set 0 2 3] : List (Op Nat Nat))
+      = .ok ([⟨5, #v[none, some ⟨1, 1, 2⟩, some ⟨2, 2, 3⟩, none, none], 2⟩], [.done, .done]) := by rfl
+  rw [hrun] at h1
+  cases h1
+  have r := R.2 0 (by decide) (by decide)
+  have := congrArg (fun x => x.toOption.map (fun o => match o with | Obs.val v => v | _ => 0)) (h Nat Nat hid some _ _ r 1)
+  revert this
+  decide
+
+/-- the same on the model, evaluated: the answer of the code as it is, of the repaired code, and of the map -/
+example :
+    (run cfgNow hid (fresh cfgNow Nat Nat 1) [.set 0 1 2, .set 0 2 3]).toOption.map
+        (fun r => r.1.map (fun t => ((getViaVal cfgAnyAddress hid some t 1).toOption.map (fun o => match o with | .val v => v | _ => 0),
+                                     (getViaVal cfgKeyChecked hid some t 1).toOption.map (fun o => match o with | .val v => v | _ => 0))))
+      = some [(some 2, some 3)] ∧
+    (match Spec.getOfVal some (specRun (List.replicate 1 ([] : Spec Nat Nat)) [.set 0 1 2, .set 0 2 3]).1[0]! 1 with
+      | .val w => w | _ => 0) = 3 := by decide
+
+/-- the address test does not look at whether the record is occupied either: an address inside an empty record of a fresh
+    table is answered with a pointer to zeroed memory, where the map says `KeyError` -/
+theorem C02_get_unoccupied_record_refuted :
+    (getArg cfgAnyAddress hid some (new cfgNow : Tab Nat Nat) (.inSlot 0 .key)).toOption.map (fun o => match o with | .zeroed => true | _ => false)
+      = some true := by decide
 
 /-! ### non-vacuity -/
 
 /-- the slot array as `(index, stored home, key, value)` -/
-def slotList (t : Tab Nat Nat) : List (Nat × Nat × Nat × Nat) :=
-  (t.slots.toList.zipIdx.filterMap (fun p => p.1.map (fun e => (p.2, e.home, e.key, e.val))))
+def slotList (t : Tab Nat Nat) : List (Nat × Nat × Nat × Nat) := slotList' t
 
 /-- A reachable state (hence, by `C02_current_source`, one that satisfies `StRel`/`Rep`) with a collision cluster that wraps
     the end of the array, an update of a non-first cluster member and a removal of the cluster's first member (backward
@@ -225,11 +378,15 @@ example :
       == some ([(5, 2, [(0, 4, 14, 3), (4, 4, 9, 7)])], 5)) = true := by
   decide
 
-/-- the hypotheses of `C02_refines_map` are met by the source-derived configuration and an ordinary history -/
-example : GoodCfg cfgNow ∧ (∀ op ∈ ([.set 0 4 1, .assign 1 0, .copy 0 1, .resize 1 0, .set 1 3 3] : List (Op Nat Nat)), op.noSelfAssign) := by
+/-- the hypotheses of `C02_refines_map` are met by the source-derived configuration; a history with self-assignment,
+    a constructor with pairs and an assignment from another map runs and agrees with the specification -/
+example : GoodCfg cfgNow ∧
+    ((run cfgNow hid (fresh cfgNow Nat Nat 2)
+        [.newWith 0 [(4, 1), (9, 2), (4, 3)] false, .assign 0 0, .len 0, .get 0 4, .assignMap 1 [(1, 1), (6, 6)], .len 1,
+         .newWith 1 [] true, .len 1]).toOption.map
+      (fun r => r.2.map (fun o => match o with | .nat n => n | .val v => v | .raised _ => 99 | _ => 0)))
+      = some [0, 0, 2, 3, 0, 2, 99, 2] := by
   refine ⟨C02_current_source_good, ?_⟩
-  intro op h
-  simp only [List.mem_cons, List.not_mem_nil, or_false] at h
-  rcases h with h | h | h | h | h <;> subst h <;> simp [Op.noSelfAssign]
+  decide
 
 end Cello.Table
